@@ -402,6 +402,11 @@ def constructed(draw):
                 try_insert(s, {"n": "givenName", "c": "G"})
             elif not want and present:
                 try_remove(s, "givenName")
+            if pre.chance(5):
+                # the surname itself missing (the tree is then no longer valid, but still built from known names)
+                s["k"] = [k for k in s.get("k", []) if k["n"] != "surName"]
+                if not s["k"]:
+                    del s["k"]
         elif nm in ("dataTable", "otherEntity"):
             present = any(k["n"] == "entityDescription" for k in s.get("k", []))
             want = pre.bool()
